@@ -274,7 +274,12 @@ fn rp_vec(g: &mut Gen, n: usize, text: bool) -> J {
     J::Array((0..n).map(|_| if text { J::from(g.r.gen_range(0..4u64)) } else { J::from(0u64) }).collect())
 }
 
-pub fn script(kind: &str, seed: u64, count: usize) -> Vec<J> {
+pub fn script(kind_arg: &str, seed: u64, count: usize) -> Vec<J> {
+    // "pairs:compare" fixes the operation of a two-document kind
+    let (kind, fixed_op) = match kind_arg.split_once(':') {
+        Some((k, o)) => (k, Some(o.to_string())),
+        None => (kind_arg, None),
+    };
     let mut out = Vec::new();
     let mut g = Gen::new(seed);
     let text = kind == "repr" || kind == "pairs_repr";
@@ -333,7 +338,10 @@ pub fn script(kind: &str, seed: u64, count: usize) -> Vec<J> {
             }
             "pairs" | "pairs_repr" => {
                 let e = if g.r.gen_range(0..4) == 0 { g.doc(3, 3) } else { g.mutate(&d) };
-                let op = *g.pick(&["compare", "contains", "comparable2", "concat", "array_intersection", "array_except", "array_overlap"]);
+                let op: &str = match &fixed_op {
+                    Some(o) => o.as_str(),
+                    None => *g.pick(&["compare", "contains", "comparable2", "concat", "array_intersection", "array_except", "array_overlap"]),
+                };
                 let mut a = json!({});
                 if matches!(op, "concat" | "array_intersection" | "array_except") { a["pre"] = pre_of(&mut g); }
                 json!({"op":op,"d":[t, value_to_tree(&e)],"a":a})
